@@ -57,6 +57,24 @@ class FakeTransport:
         return self.sock if name == "socket" else default
 
 
+class ExitTransport(FakeTransport):
+    """The UDP socket of a TunnelExitSocket (what create_datagram_endpoint hands to TunnelProtocol.open)."""
+
+    def __init__(self, world, port, protocol):
+        super().__init__(world, port)
+        self.protocol = protocol
+        self.closed = False
+
+    def sendto(self, data, addr=None):
+        self.sent.append((addr, bytes(data)))
+
+    def close(self):
+        self.closed = True
+
+    def is_closing(self):
+        return self.closed
+
+
 class Obs:
     """Per delivery: one record per outermost listener.on_packet call."""
 
@@ -192,9 +210,8 @@ class World:
             d._preferred_interface = self.udp
             top = d
         if chain in ("stats", "tstats"):
-            # StatisticsEndpoint inherits Endpoint.add_*listener / remove_listener and runs them partly on the wrapped
-            # endpoint's tables (attribute fall-through), partly on tables of its own (after the first assignment):
-            # in these chains the resulting table of the UDP endpoint is handed to the spec as given ("tabset")
+            # StatisticsEndpoint forwards add_*listener / remove_listener / notify_listeners to the wrapped endpoint:
+            # every table operation arrives at (and is logged by) the UDP endpoint like in the other chains
             top = self.stats = StatisticsEndpoint(top)
         if chain in ("tunnel", "tstats", "tdisp"):
             top = TunnelEndpoint(top)
@@ -224,11 +241,6 @@ class World:
                 s2 = ns["Sink"](top)
                 top.add_prefix_listener(s2, self.overlays[0].get_prefix())
                 self.sinks.append(s2)
-        if self.stats is not None:
-            self.events = [e for e in self.events if e["op"] not in ("add", "addp", "rem")]
-            self.events.append({"op": "tabset", "glob": [self.lid(x) for x in self.udp._listeners],
-                                "pmap": [{"p": list(p), "ls": [self.lid(x) for x in ls]}
-                                         for p, ls in self.udp._prefix_map.items()]})
         self._wrap_all()
         loop.settle()
 
@@ -236,9 +248,17 @@ class World:
     async def _make(self, name, peer):
         from ipv8.community import CommunitySettings
         kw = {"my_peer": peer, "endpoint": self.top, "network": self.network}
+        peer_flags = None
         name, _, opt = name.partition("+")
         if opt == "anon":
             kw["anonymize"] = True
+        if opt in ("xbt", "xipv8", "xall"):
+            # supported non-default settings: the node offers to be an exit for BitTorrent and / or IPv8 traffic
+            from ipv8.messaging.anonymization.tunnel import (PEER_FLAG_EXIT_BT, PEER_FLAG_EXIT_IPV8, PEER_FLAG_RELAY,
+                                                             PEER_FLAG_SPEED_TEST)
+            peer_flags = ({PEER_FLAG_RELAY, PEER_FLAG_SPEED_TEST}
+                          | ({PEER_FLAG_EXIT_BT} if opt in ("xbt", "xall") else set())
+                          | ({PEER_FLAG_EXIT_IPV8} if opt in ("xipv8", "xall") else set()))
         if name in self.ns:
             return self.ns[name](CommunitySettings(**kw))
         if name == "DiscoveryCommunity":
@@ -262,7 +282,10 @@ class World:
             kw["working_directory"] = ":memory:"
         else:
             raise ValueError(name)
-        return C(C.settings_class(**kw))
+        settings = C.settings_class(**kw)
+        if peer_flags is not None:
+            settings.peer_flags = peer_flags       # (a property: set like an application does, after construction)
+        return C(settings)
 
     def lid(self, obj):
         for i, o in enumerate(self.objs):
@@ -335,13 +358,18 @@ class World:
         from ipv8.messaging.interfaces.statistics_endpoint import StatisticsEndpoint
         out = []
         for obj in self.objs:
-            d = {"kind": "sink", "prefix": [], "handlers": [], "priv": [], "comm": 0, "anon": False, "tracked": []}
+            d = {"kind": "sink", "prefix": [], "handlers": [], "priv": [], "comm": 0, "anon": False, "tracked": [],
+                 "xbt": False, "xipv8": False}
             if isinstance(obj, Community):
                 d["kind"] = "community"
                 d["prefix"] = list(obj.get_prefix())
                 d["handlers"] = [i for i, h in enumerate(obj.decode_map) if h is not None]
                 d["priv"] = sorted(getattr(obj, "decode_map_private", {}))
                 d["anon"] = bool(getattr(obj, "anonymize", False))
+                if hasattr(obj, "crypto_endpoint"):
+                    from ipv8.messaging.anonymization.tunnel import PEER_FLAG_EXIT_BT, PEER_FLAG_EXIT_IPV8
+                    d["xbt"] = PEER_FLAG_EXIT_BT in obj.settings.peer_flags
+                    d["xipv8"] = PEER_FLAG_EXIT_IPV8 in obj.settings.peer_flags
             elif isinstance(obj, PythonCryptoEndpoint):
                 d["kind"] = "crypto"
                 d["prefix"] = list(obj.prefix)
@@ -363,23 +391,36 @@ class World:
 
         def cid(c):
             return list(struct.pack("!I", c & 0xffffffff))
+        # an entry is stale when do_remove would call it inactive
+        horizon = self.loop.time() - self.tunnel.settings.max_time_inactive
+        stale = [[k, cid(c)] for k, tab in (("c", ce.circuits), ("x", ce.exit_sockets), ("r", ce.relays))
+                 for c, o in tab.items() if o.last_activity < horizon]
         return {"op": "tables", "circuits": [cid(c) for c in ce.circuits], "exits": [cid(c) for c in ce.exit_sockets],
                 "relays": [{"cid": cid(c), "dir": "fwd" if (r.direction == FORWARD or r.rendezvous_relay) else "bwd",
-                            "count": r.relay_early_count} for c, r in ce.relays.items()]}
+                            "count": r.relay_early_count, "to": cid(r.circuit_id), "rdv": bool(r.rendezvous_relay)}
+                           for c, r in ce.relays.items()],
+                "stale": stale,
+                "xon": [cid(c) for c, x in ce.exit_sockets.items() if x.enabled and x.transport_ipv4 is not None]}
 
     def sync_tables(self, force=False):
         if self.tunnel is None:
             return
         t = self.tables()
-        key = (tuple(map(tuple, t["circuits"])), tuple(map(tuple, t["exits"])),
-               tuple((tuple(r["cid"]), r["dir"]) for r in t["relays"]))
+        key = self._tables_key(t)
         if force or key != self.last_tables:
             self.last_tables = key
             self.events.append(t)
 
-    def install_tunnel_state(self):
-        """A 1-hop and a 2-hop circuit, an exit socket and a relay pair with real session keys (the far ends'
-        copies of the keys stay with the harness, which plays the remote peers)."""
+    @staticmethod
+    def _tables_key(t):
+        return (tuple(map(tuple, t["circuits"])), tuple(map(tuple, t["exits"])),
+                tuple((tuple(r["cid"]), r["dir"], tuple(r["to"]), r["rdv"]) for r in t["relays"]),
+                tuple(map(tuple, t["xon"])))
+
+    def install_tunnel_state(self, op="tables"):
+        """A 1-hop and a 2-hop circuit, an exit socket (enabled: with its UDP sockets), a relay pair and a
+        rendezvous link with real session keys (the far ends' copies of the keys stay with the harness, which
+        plays the remote peers)."""
         from ipv8.keyvault.crypto import default_eccrypto
         from ipv8.messaging.anonymization.exit_socket import TunnelExitSocket
         from ipv8.messaging.anonymization.tunnel import BACKWARD, FORWARD, Circuit, Hop, RelayRoute
@@ -416,8 +457,102 @@ class World:
             ce.relays[0x31323334] = RelayRoute(0x21222324, Hop(peer, kq), BACKWARD)
             self.far["relay_fwd"] = (0x21222324, [fr], FORWARD)
             self.far["relay_bwd"] = (0x31323334, [], BACKWARD)
+            # a rendezvous link, exactly what HiddenTunnelCommunity.on_link_e2e installs: each route decrypts with
+            # the keys shared with its own side and re-encrypts with the keys of the opposite route
+            kx, fx = keys()
+            ky, fy = keys()
+            ce.relays[0x41424344] = RelayRoute(0x51525354, Hop(peer2, kx), FORWARD, True)
+            ce.relays[0x51525354] = RelayRoute(0x41424344, Hop(peer, ky), FORWARD, True)
+            self.far["rdv_a"] = (0x41424344, [fx], FORWARD)
+            self.far["rdv_b"] = (0x51525354, [fy], FORWARD)
+        for x in list(ce.exit_sockets.values()):       # (re-install: the sockets of the previous generation)
+            self.loop.run_until_complete(x.close())
         in_loop(self.loop, build)
+        self.enable_exits()
+        t = self.tables()
+        t["op"] = op
+        self.last_tables = self._tables_key(t)
+        self.events.append(t)
+
+    def enable_exits(self):
+        """TunnelExitSocket.enable() with a loop that hands out recording transports: the protocol objects asyncio
+        would call datagram_received on are kept per exit socket."""
+        self.exit_protocols = {}
+        ports = iter(range(20000, 30000))
+
+        async def fake_endpoint(factory, local_addr=None, **_k):
+            proto = factory()
+            return ExitTransport(self, next(ports), proto), proto
+        saved = self.loop.create_datagram_endpoint
+        self.loop.create_datagram_endpoint = fake_endpoint
+        try:
+            for cid, x in self.tunnel.crypto_endpoint.exit_sockets.items():
+                in_loop(self.loop, x.enable)
+                self.loop.advance(0.01)
+                if x.transport_ipv4 is None or x.transport_ipv6 is None:
+                    raise RuntimeError("exit socket did not open its sockets")
+                self.exit_protocols[cid] = {"v4": x.transport_ipv4.protocol, "v6": x.transport_ipv6.protocol}
+        finally:
+            self.loop.create_datagram_endpoint = saved
+
+    # ------------------------------------------------------------------ table actions, run on the real node
+    ENTRY = {"circuit": ("c", 0x01020304), "circuit2": ("c", 0x0a0b0c0d), "exit": ("x", 0x11121314),
+             "relay_fwd": ("r", 0x21222324), "relay_bwd": ("r", 0x31323334),
+             "rdv_a": ("r", 0x41424344), "rdv_b": ("r", 0x51525354)}
+
+    def tun_op(self, op, which=None):
+        """tick: more than max_time_inactive passes; sweep: the periodic do_circuits callback (ends in do_remove) and
+        the removal delay; rmtun: remove_circuit / remove_relay / remove_exit_socket of one entry."""
+        t = self.tunnel
         self.sync_tables(force=True)
+        extra = {}
+        if op == "tick":
+            self.loop.advance(t.settings.max_time_inactive + 1)
+        elif op == "sweep":
+            in_loop(self.loop, t.do_circuits)
+            self.loop.advance(t.settings.remove_tunnel_delay + 0.25)
+        elif op == "rmtun":
+            table, cid = self.ENTRY[which]
+            fn = {"c": t.remove_circuit, "r": t.remove_relay, "x": t.remove_exit_socket}[table]
+            in_loop(self.loop, fn, cid, "harness", True)
+            self.loop.advance(t.settings.remove_tunnel_delay + 0.25)
+            extra = {"t": table, "cid": list(struct.pack("!I", cid))}
+        else:
+            raise ValueError(op)
+        ev = self.tables()
+        ev["op"] = op
+        ev.update(extra)
+        self.last_tables = self._tables_key(ev)
+        self.events.append(ev)
+        return ev
+
+    def present(self, which):
+        table, cid = self.ENTRY[which]
+        ce = self.tunnel.crypto_endpoint
+        return cid in {"c": ce.circuits, "x": ce.exit_sockets, "r": ce.relays}[table]
+
+    def xrecv(self, cid, data, fam="v4"):
+        """A datagram from the outside world at the UDP socket of exit socket `cid` (the asyncio protocol callback)."""
+        src = {"v4": ("93.184.216.34", 6881), "v6": ("2001:db8::7", 6881, 0, 0),
+               "v6mapped": ("::ffff:93.184.216.34", 6881, 0, 0)}[fam]
+        proto = self.exit_protocols[cid]["v4" if fam == "v4" else "v6"]
+        before = len(self.transport.sent)
+        self.obs.begin()
+        exc = None
+        try:
+            in_loop(self.loop, proto.datagram_received, data, src)
+        except Exception as e:  # noqa: BLE001
+            exc = e
+        self.loop.settle()
+        ev = {"op": "xrecv", "o": self.lid(self.tunnel), "xc": list(struct.pack("!I", cid)), "fam": fam,
+              "len": len(data), "head": list(data[:HEAD]), "lastb": data[-1] if data else 0,
+              "raised": exc is not None, "fwd": min(1, len(self.transport.sent) - before)}
+        if exc is not None:
+            ev["x"] = site_of(exc)
+            ev["hex"] = data[:200].hex()
+        self.events.append(ev)
+        self.sync_tables()
+        return ev
 
     def cell(self, cid, body, plaintext=False, relay_early=False):
         return self.tunnel.get_prefix() + b"\x00" + struct.pack("!I??", cid, plaintext, relay_early) + body
